@@ -68,6 +68,10 @@ ASSUMPTIONS = [
     "check_valid='shallow' tasks are generated only in workflows where no body stats a file (shallow validity skips "
     "intermediate values by design; the theorem has the same hypothesis: WorldFree or no shallow task)",
     "bodies observe the file system only through File(path) objects that they pass on (no hidden reads): BodyOk",
+    "file-producing workflows (oracle only, not in the Lean model): lanes head(publish(src, dest)) with the destination File passed "
+    "as a task argument (pre-hashed), constructed inside the task, written through File.open, staged through StagingFile, or "
+    "copied twice; between executions sources are rewritten/restored, outputs deleted (clean output directory) or overwritten; "
+    "the shared-backend and the fresh-backend execution of a step start from identical files",
     "local in-process execution, default scheduler options (cache=True), no limits, no context, no handles",
 ]
 RULE = ("one case = one history of 2-6 (quick) / 2-10 (thorough) executions on one sqlite backend with generated edits in between "
@@ -895,7 +899,164 @@ def probe_flags(ctx, env):
     return flags
 
 
+# =========================================================================================== file-producing workflows
+# (oracle only: the Lean model has no tasks that write files; what a produced File's recorded hash must be is C04/C30's
+#  subject, but a consumer served a stale Evaluation row because of it shows here, as a wrong answer)
+SIG_PRODUCED = "C02-stale-consumer-of-produced-file"
+PRODUCERS = ["copy_arg", "copy_inner", "write_arg", "stage_arg", "copy_chain"]
+
+
+class ProdHist:
+    """lanes: list of producer kinds (lane i reads source i, writes out/o<i>.txt [and out/m<i>.txt]); steps: list of
+    dict(src={i: stamp}, clean=[i...] (outputs of these lanes deleted before the execution), tamper={i: stamp})"""
+
+    def __init__(self, lanes, steps):
+        self.lanes = lanes
+        self.steps = steps
+
+    def to_json(self):
+        return dict(kind="producers", lanes=self.lanes, steps=self.steps)
+
+    @staticmethod
+    def from_json(d):
+        return ProdHist(d["lanes"], [dict(src={int(k): v for k, v in s["src"].items()}, clean=s["clean"],
+                                          tamper={int(k): v for k, v in s.get("tamper", {}).items()}) for s in d["steps"]])
+
+
+def gen_prodhist(rng, nsteps):
+    lanes = [rng.choice(PRODUCERS) for _ in range(rng.choice([1, 2, 2, 3]))]
+    src = {i: 1 for i in range(len(lanes))}
+    steps = []
+    for k in range(nsteps):
+        clean, tamper = [], {}
+        if k > 0:
+            for i in range(len(lanes)):
+                r = rng.random()
+                if r < 0.45:
+                    src[i] = rng.choice([x for x in (1, 2, 3, 4) if x != src[i]])     # source rewritten / restored
+                if rng.random() < 0.6:
+                    clean.append(i)                                                   # outputs deleted (clean output dir)
+                elif rng.random() < 0.15:
+                    tamper[i] = rng.choice([7, 8])                                    # an output overwritten by hand
+        steps.append(dict(src=dict(src), clean=clean, tamper=tamper))
+    return ProdHist(lanes, steps)
+
+
+def write_stamped(path, s):
+    with open(path, "w") as f:
+        f.write("%06d" % s)
+    os.utime(path, (1_000_000 + s, 1_000_000 + s))
+
+
+def run_prodhist(env, ph):
+    """returns per-step dict(real, fresh).  Both executions of a step start from the same files: the output directory is
+    put back to its pre-execution state for the fresh-backend run, then to what the shared-backend run left."""
+    import ctl_sched
+    env.nhist += 1
+    ns = "c02p%d" % env.nhist
+    d = os.path.join(env.dir, ns)
+    out, pre, post = os.path.join(d, "out"), os.path.join(d, "pre"), os.path.join(d, "post")
+    os.makedirs(out)
+    n = len(ph.lanes)
+    srcs = [os.path.join(d, "in%d.txt" % i) for i in range(n)]
+    lane_expr = {
+        "copy_arg": "head(publish(File({src!r}), File({o!r})))",
+        "copy_inner": "head(publish_inner(File({src!r}), {o!r}))",
+        "write_arg": "head(write_to(File({o!r}), rd(File({src!r}))))",
+        "stage_arg": "head(stage_in(File({src!r}), File({o!r})))",
+        "copy_chain": "head(publish(publish(File({src!r}), File({m!r})), File({o!r})))",
+    }
+    text = ["from redun import task, File", "from redun.file import StagingFile", "",
+            "def _int(f):", "    with open(f.path) as fh:", "        return int(fh.read())", ""]
+    for name, params, body in [
+            ("publish", "src, dest", "return src.copy_to(dest)"),
+            ("publish_inner", "src, dest_path", "return src.copy_to(File(dest_path))"),
+            ("write_to", "dest, n", "with dest.open('w') as fh:\n        fh.write('%06d' % n)\n    return dest"),
+            ("stage_in", "remote, local", "return StagingFile(local, remote).stage()"),
+            ("rd", "f", "return _int(f)"),
+            ("head", "f", "return _int(f)")]:
+        text += ['@task(name="%s", namespace="%s", version="1")' % (name, ns), "def %s(%s):" % (name, params), "    " + body, ""]
+    terms = [lane_expr[k].format(src=srcs[i], o=os.path.join(out, "o%d.txt" % i), m=os.path.join(out, "m%d.txt" % i))
+             for i, k in enumerate(ph.lanes)]
+    text += ['@task(name="main", namespace="%s", version="1")' % ns, "def main():", "    return [%s]" % ", ".join(terms), ""]
+    path = os.path.join(d, ns + "_mod.py")
+    with open(path, "w") as f:
+        f.write("\n".join(text))
+    spec = importlib.util.spec_from_file_location(ns + "_mod", path)
+    mod = importlib.util.module_from_spec(spec)
+    sys.modules[ns + "_mod"] = mod
+    spec.loader.exec_module(mod)
+    db_uri = env.empty_db(os.path.join(d, "redun.db"))
+
+    def execute(uri):
+        ctl = make_ctl()
+        sched = ctl_sched.make_scheduler(ctl, db_uri=uri)
+        with inherit_priority(ctl):
+            status, payload = ctl.run(sched, mod.main())
+        close_sched(sched)
+        return ("ok:%s" % (payload,)) if status == "ok" else "%s:%s" % (status, type(payload).__name__ if status == "err" else payload)
+
+    rows = []
+    for k, st in enumerate(ph.steps):
+        for i, s in st["src"].items():
+            write_stamped(srcs[i], s)
+        for i in st["clean"]:
+            for fn in ("o%d.txt" % i, "m%d.txt" % i):
+                if os.path.exists(os.path.join(out, fn)):
+                    os.remove(os.path.join(out, fn))
+        for i, s in st["tamper"].items():
+            if os.path.exists(os.path.join(out, "o%d.txt" % i)):
+                write_stamped(os.path.join(out, "o%d.txt" % i), s)
+        shutil.rmtree(pre, ignore_errors=True)
+        shutil.copytree(out, pre)
+        real = execute(db_uri)
+        shutil.rmtree(post, ignore_errors=True)
+        shutil.copytree(out, post)
+        shutil.rmtree(out)
+        shutil.copytree(pre, out)
+        fresh_path = os.path.join(d, "fresh.db")
+        fresh = execute(env.empty_db(fresh_path))
+        os.remove(fresh_path)
+        shutil.rmtree(out)
+        shutil.copytree(post, out)
+        rows.append(dict(step=k, real=real, fresh=fresh))
+    shutil.rmtree(d, ignore_errors=True)
+    return rows
+
+
+def check_prodhist(ctx, env, ph, label):
+    rows = run_prodhist(env, ph)
+    case = dict(label=label, producers=ph.to_json())
+    ctx.case(key=json.dumps(ph.to_json(), sort_keys=True), sample=dict(label=label, lanes=ph.lanes, results=[r["real"] for r in rows][:4]),
+             steps=len(rows), source="producers")
+    for kind in ph.lanes:
+        ctx.count("producer", kind)
+    for r in rows:
+        ctx.count("outcome", r["real"].split(":")[0])
+        if r["real"] != r["fresh"]:
+            ctx.violation(SIG_PRODUCED, "execution %d of a file-producing history returns %s on the shared backend, %s on a fresh backend"
+                          % (r["step"], r["real"], r["fresh"]), case=dict(case, step=r["step"]), expected=r["fresh"], actual=r["real"],
+                          kind="history")
+    return rows
+
+
+def prod_corpus():
+    # clean the output directory and rewrite the source between executions; the destination File is a task argument
+    return {
+        "copy-to-prehashed-destination": ProdHist(["copy_arg"], [dict(src={0: 1}, clean=[], tamper={}), dict(src={0: 2}, clean=[0], tamper={}),
+                                                                    dict(src={0: 2}, clean=[], tamper={}), dict(src={0: 1}, clean=[0], tamper={})]),
+        "all-producers": ProdHist(list(PRODUCERS), [dict(src={i: 1 for i in range(5)}, clean=[], tamper={}),
+                                                    dict(src={i: 3 for i in range(5)}, clean=[0, 1, 2, 3, 4], tamper={}),
+                                                    dict(src={i: 3 for i in range(5)}, clean=[], tamper={1: 7})]),
+    }
+
+
 # =========================================================================================== run
+def cpu():
+    import time
+    return time.process_time()
+
+
 def run(ctx):
     import ctl_sched
     ctl_sched.quiet()
@@ -903,6 +1064,9 @@ def run(ctx):
     try:
         flags = probe_flags(ctx, env)
         ctx.note("tree variant: %s" % json.dumps(flags))
+        quick = ctx.tier == "quick"
+        for name, ph in prod_corpus().items():
+            check_prodhist(ctx, env, ph, "corpus:" + name)
         cases = [("corpus:" + name, h, dict(source="corpus")) for name, h in corpus().items()]
         nsteps_max = 6 if ctx.tier == "quick" else 10
         rng = ctx.rng
@@ -911,12 +1075,18 @@ def run(ctx):
             prim = rng.random() < 0.15
             h = gen_history(rng, rng.randrange(2, nsteps_max + 1), allow_catch, prim=prim)
             cases.append(("gen%d" % idx, h, dict(source="generated", catch=allow_catch and not prim, lookalike_args=prim)))
-        budget = 36 if ctx.tier == "quick" else 460
+        # budgets in CPU seconds of this process (the machine may be loaded); wall clock only as a safety net
+        cpu_budget, wall_budget = (20, 60) if quick else (300, 480)
         done = []
+        nprod = 0
         for k, (label, h, tags) in enumerate(cases):
             done.append((label, h, tags, run_real(env, h)))
-            if ctx.elapsed() > budget:
-                ctx.note("stopped after %d of %d histories (time budget)" % (k + 1, len(cases)))
+            if k % 6 == 5:
+                nprod += 1
+                check_prodhist(ctx, env, gen_prodhist(rng, rng.randrange(2, 5 if quick else 7)), "prod%d" % nprod)
+            if cpu() > cpu_budget or ctx.elapsed() > wall_budget:
+                ctx.note("stopped after %d of %d histories + %d file-producing histories (budget: %.0fs cpu, %.0fs wall)"
+                         % (k + 1, len(cases), nprod, cpu(), ctx.elapsed()))
                 break
         replies = ctx.model("C02", [q for _, h, _, _ in done for q in requests(h, flags)])
         for k, (label, h, tags, rows) in enumerate(done):
@@ -932,6 +1102,10 @@ def replay(ctx, case):
     env = Env()
     try:
         c = case.get("case") or {}
+        if "producers" in c:
+            for r in check_prodhist(ctx, env, ProdHist.from_json(c["producers"]), "replay"):
+                print("step", r["step"], "real", r["real"], "fresh", r["fresh"])
+            return
         hist = Hist.from_json(c["history"]) if "history" in c else None
         if hist is None:
             mm = (case.get("mismatches") or [{}])[0].get("case", {})
